@@ -1,0 +1,74 @@
+//! Hooks for external runtime monitors (cargo feature `verif-hooks`, off by default).
+//!
+//! Nothing in this module changes behaviour unless a monitor explicitly installs
+//! a clock value or a callback.
+
+/// Injectable millisecond clock used by the uptime estimator instead of the system time.
+pub mod clock {
+    use std::sync::atomic::{AtomicBool, AtomicU64, Ordering};
+
+    static ENABLED: AtomicBool = AtomicBool::new(false);
+    static NOW_MS: AtomicU64 = AtomicU64::new(0);
+
+    /// Freeze the clock at `ms` milliseconds since the epoch (process-wide).
+    pub fn set_ms(ms: u64) {
+        NOW_MS.store(ms, Ordering::SeqCst);
+        ENABLED.store(true, Ordering::SeqCst);
+    }
+
+    /// Return to the system clock.
+    pub fn clear() {
+        ENABLED.store(false, Ordering::SeqCst);
+    }
+
+    /// The injected time, if any.
+    pub fn get() -> Option<u64> {
+        if ENABLED.load(Ordering::SeqCst) {
+            Some(NOW_MS.load(Ordering::SeqCst))
+        } else {
+            None
+        }
+    }
+}
+
+/// Observation and perturbation points of the worker pool.
+pub mod sched {
+    use std::sync::{Arc, RwLock};
+
+    /// Where in the pool a point is reached.
+    #[derive(Debug, Clone, Copy, PartialEq, Eq, Hash)]
+    pub enum Site {
+        /// `dispatch` was entered (packet = the frame handed in).
+        DispatchEnter,
+        /// A worker was chosen, right before `try_send` (packet = the frame).
+        DispatchChosen,
+        /// `try_send` succeeded, before the counters are updated (packet = empty).
+        DispatchQueued,
+        /// `try_send` failed, before the counters are updated (packet = empty).
+        DispatchDropped,
+        /// A worker took a frame off its queue (packet = the frame).
+        WorkerDequeue,
+        /// A worker finished handling a frame, whatever the outcome (packet = the frame).
+        WorkerProcessed,
+    }
+
+    pub type Callback = Arc<dyn Fn(Site, usize, &[u8]) + Send + Sync>;
+
+    static CALLBACK: RwLock<Option<Callback>> = RwLock::new(None);
+
+    /// Install (or remove with `None`) the process-wide callback.
+    pub fn install(callback: Option<Callback>) {
+        if let Ok(mut guard) = CALLBACK.write() {
+            *guard = callback;
+        }
+    }
+
+    /// Called by the pool; a no-op unless a callback is installed.
+    #[inline]
+    pub fn point(site: Site, worker_id: usize, packet: &[u8]) {
+        let callback = CALLBACK.read().ok().and_then(|guard| guard.clone());
+        if let Some(callback) = callback {
+            callback(site, worker_id, packet);
+        }
+    }
+}
